@@ -260,7 +260,8 @@ func (exp *expressionStream) normalizeLicense(license string) *token {
 			// replace `-or-later` with `+`
 			newExpression := exp.expression[0:exp.index-len("-or-later")] + "+"
 			if exp.hasMore() {
-				newExpression += exp.expression[exp.index+1:]
+				// keep the rest of the expression; a `+` directly after `-or-later` is redundant
+				newExpression += strings.TrimPrefix(exp.expression[exp.index:], "+")
 			}
 			exp.expression = newExpression
 			// update index to remove `-or-later`; now pointing at the `+` operator
